@@ -60,8 +60,11 @@ def _cases(draw):
             rels.append(r)
             if draw(st.integers(0, 3)) == 0:
                 rels.append(dict(r))
+        # several non-DC metadata attributes on one element: their order in exported bytes
+        full = {'status': 'checked', 'note': f'n{i}', 'confidenceScore': '0.8', 'source': 's'}
         ss = {'id': f'd-s{i}', 'ili': f'i{i}' if i % 4 else '', 'partOfSpeech': pos,
-              'meta': None, 'definitions': [{'text': f'def {i}', 'meta': None}]}
+              'meta': dict(full) if i % 2 else None,
+              'definitions': [{'text': f'def {i}', 'meta': dict(full) if i % 3 == 0 else None}]}
         if rels:
             ss['relations'] = rels
         synsets.append(ss)
